@@ -83,7 +83,12 @@ package interp
 
 // Expansion and evaluation change the store only through Set; they never
 // write Args, Opts, Aliases (the field or the map) or any field of the AST.
+// In Quote or Arith mode (and neither Literal nor Pattern) the fields are
+// neither split nor globbed nor joined: one result per field, so "$@" keeps
+// one field per positional parameter.
 //@ func (*ExecEnv).Expand
+//@   loop "for _, f := range fields" invariant[C13 C15] mode&Literal == 0 && mode&Pattern == 0 && mode&(Arith|Quote) != 0 ==> len(rv) == rangeindex + 1
+//@   ensures[C13 C15] one-result-per-field-in-quote-mode: result1 == nil && mode&Literal == 0 && mode&Pattern == 0 && mode&(Arith|Quote) != 0 ==> len(result0) == len(fields)
 //@   preserves[C20] F.interp.ExecEnv.* F.ast.* MapHas.Str.Str MapVal.Str.Str
 //@   preserves[C20] region field:interp.ExecEnv.Args field:ast.* ext:Expand.word unboxed:ast.*
 //@ func (*ExecEnv).Eval
@@ -154,7 +159,12 @@ package interp
 //@   ensures off == 0 ==> col <= len(s)
 //@   ensures off > 0 ==> word[off-1] is *ast.Lit && col <= len(word[off-1].(*ast.Lit).Value)
 
+// Pathname expansion hands on what Glob found, as found, or else the field
+// itself with its quotes removed: a path is never respelled.
 //@ func (*ExecEnv).expandPath
+//@   site GLOB = call pattern.Glob
+//@   site SELF = call interp.(*field).unquote
+//@   ensures[C15 C16] paths-as-found-or-the-field-itself: (site(GLOB) && result == siteret(GLOB)) || (site(SELF) && len(result) == 1 && result[0] == siteret(SELF))
 //@   requires f != nil
 
 // ---- field splitting (C14) ----
